@@ -39,6 +39,7 @@ pub fn property() -> Property {
             },
             // (2)
             SubCheck { name: "add_output", kind: Kind::Tape { quick: 120_000, thorough: 1_500_000, max_len: 192 }, run: add_output_case },
+            SubCheck { name: "collateral_return", kind: Kind::Tape { quick: 150_000, thorough: 3_000_000, max_len: 192 }, run: collateral_return_case },
             SubCheck { name: "mint_output", kind: Kind::Tape { quick: 40_000, thorough: 600_000, max_len: 160 }, run: mint_output_case },
             // (3) built transactions of the scenario engine (props/builder.rs::c07_built_case)
             SubCheck { name: "built_tx", kind: Kind::Tape { quick: 300_000, thorough: 8_000_000, max_len: 500 }, run: super::builder::c07_built_case },
@@ -1410,6 +1411,112 @@ fn add_output_case(ctx: &mut Ctx, tape: &[u8]) -> CaseResult {
     if spec.has_features() || any_near {
         ctx.nontrivial(fp_mix(fp64(&spec.bytes(0)), fp_mix(cpb, mvs as u64)));
         ctx.sample(&format!("add_output/{}", mvs_mode), || format!("{}; cpb {}; max_value_size {}; {} coins walked around the minimum, {} accepted", spec.describe(), cpb, mvs, coins.len(), accepted.len()));
+    }
+    Ok(())
+}
+
+// ---------------------------------------------------------------------------------------------
+// (2b) the collateral return the helpers create or accept
+
+/// the collateral return under key 16 of the body the builder emits
+fn emitted_collateral_return(sub: &str, tb: &TransactionBuilder) -> Result<Option<Vec<u8>>, Failure> {
+    let mut tb = tb.clone();
+    let body = lib(sub, "TransactionBuilder::build", || {
+        tb.set_fee(&bn(0));
+        tb.build().map(|b| b.to_bytes())
+    })?;
+    let body = match body {
+        Ok(b) => b,
+        Err(_) => return Ok(None),
+    };
+    let doc = match cbor::parse_document(&body) {
+        Ok(d) => d,
+        Err(e) => fail!(format!("{}/emitted-body-unreadable", sub), "{}: {}", e, hexs(&body)),
+    };
+    Ok(doc.map_get(16).map(|n| n.slice(&body).to_vec()))
+}
+
+/// Collateral inputs holding `total` (all assets in the first input, the coin split over 1..=3 key inputs), then one
+/// of the two helpers; whatever return output the builder then emits must meet the bound and the value-size limit.
+/// max_value_size is placed relative to the size of the return's value (exact, exact +- 1, 2..=10 below), so a
+/// helper that measures a part of the value, or the value with another coin, lets an oversized return through.
+fn collateral_return_case(ctx: &mut Ctx, tape: &[u8]) -> CaseResult {
+    let mut t = Tape::new(tape);
+    let tier = ctx.tier;
+    let (spec, cost, p_mvs, route, n_inputs, total_mode, below) = lib("collateral_return", "generator", || {
+        let p = plan(&mut t);
+        let mut spec = gen_spec(&mut t, tier, &p, true);
+        let t0 = 160 + spec.size0();
+        let cost = gen_cost(&p.cost, &mut spec, t0, tier, true);
+        (spec, cost, p.mvs, p.route % 2, 1 + p.aux_size % 3, p.coin.mode % 4, 2 + (p.aux_assets % 9) as u32)
+    })?;
+    let cpb = cost.cpb;
+    let s0 = spec.size0();
+    let (m, _) = least_fix(cpb, s0);
+    let min_coin = m.unwrap_or(u64::MAX);
+    // the coin the return ends up with: at / around its minimum, or wide
+    let ret_coins: Vec<u64> = if route == 1 { coin_walk(cpb, s0, min_coin.saturating_add(1_000_000)) } else { vec![min_coin, min_coin.saturating_add(1), min_coin.saturating_add(cpb), 1u64 << 32, (1u64 << 32) - 1, min_coin.saturating_mul(2)] };
+    let total = [0u64, 1, 5_000_000, 1u64 << 32][total_mode];
+    let mut emitted_any = false;
+    let mut mvs_label = "";
+    for rc in &ret_coins {
+        let input_coin = match rc.checked_add(total) {
+            Some(c) => c,
+            None => continue,
+        };
+        let vs = spec.value(*rc).to_bytes().len();
+        let (mvs, mode) = match p_mvs.0 {
+            0 => (5000u32, "5000"),
+            1 => ((vs as u32).saturating_sub(below), "2..10-below"),
+            _ => gen_max_value_size(&p_mvs, vs),
+        };
+        mvs_label = mode;
+        let mut tb = builder(cpb, mvs)?;
+        // collateral inputs: assets in the first, the coin split
+        let mut ib = TxInputsBuilder::new();
+        let share = input_coin / n_inputs as u64;
+        for k in 0..n_inputs {
+            let coin_k = if k == 0 { input_coin - share * (n_inputs as u64 - 1) } else { share };
+            let mut v = Value::new(&bn(coin_k));
+            if k == 0 {
+                if let Some(ma) = &spec.ma {
+                    v.set_multiasset(ma);
+                }
+            }
+            let inp = TransactionInput::new(&TransactionHash::from_bytes(fixed_hash32(40 + k as u8)).expect("hash"), k as u32);
+            let r = lib("collateral_return", "TxInputsBuilder::add_regular_input", || ib.add_regular_input(&base_addr_fixed(), &inp, &v))?;
+            if r.is_err() {
+                ctx.reject();
+                return Ok(());
+            }
+        }
+        tb.set_collateral(&ib);
+        let r = if route == 0 {
+            lib("collateral_return", "set_total_collateral_and_return", || tb.set_total_collateral_and_return(&bn(total), &spec.addr))?
+        } else {
+            let o = spec.output(*rc);
+            lib("collateral_return", "set_collateral_return_and_total", || tb.set_collateral_return_and_total(&o))?
+        };
+        match r {
+            Ok(()) => {
+                ctx.label_n(if route == 0 { "collateral_return:created" } else { "collateral_return:accepted" }, 1);
+                if let Some(bytes) = emitted_collateral_return("collateral_return", &tb)? {
+                    emitted_any = true;
+                    check_emitted_output(&bytes, cpb, Some(mvs), if route == 0 { "collateral_return/created" } else { "collateral_return/accepted" }, &format!("collateral return (cpb {}, max_value_size {} [{}], total collateral {})", cpb, mvs, mode, total))?;
+                }
+            }
+            Err(e) => ctx.label_n(&format!("collateral_return:refused:{}", err_class(&e)), 1),
+        }
+    }
+    spec.labels(ctx, "collateral_return");
+    ctx.label(&format!("collateral_return:max-value-size:{}", mvs_label));
+    ctx.label(&format!("collateral_return:route:{}", if route == 0 { "set_total_collateral_and_return" } else { "set_collateral_return_and_total" }));
+    if emitted_any {
+        ctx.label("collateral_return:case-with-emitted-return");
+        if spec.has_features() {
+            ctx.nontrivial(fp_mix(fp64(&spec.bytes(0)), fp_mix(cpb, fp_mix(route as u64, p_mvs.0 as u64))));
+            ctx.sample(&format!("collateral_return/{}", mvs_label), || format!("{}; cpb {}; route {}; {} collateral inputs; total collateral {}", spec.describe(), cpb, route, n_inputs, total));
+        }
     }
     Ok(())
 }
